@@ -62,7 +62,21 @@ def _work(job):
 
 def _wreset(spec_json):
     st = _stepper(spec_json)
-    return spec_json, st.reset_state, len(st.regs)
+    rs = list(st.reset_state)
+    # seeded start states (deep counter values no bounded search reaches from reset): the
+    # factory names registers (by signal name) to be overridden in the initial state
+    ov = st.opts.get("init_override")
+    if ov:
+        hit = 0
+        for i, sig in enumerate(st.regs):
+            nm = getattr(sig, "backtrace", None)
+            nm = nm[-1][0] if nm else getattr(sig, "name_override", None)
+            if sig.name_override in ov or nm in ov:
+                rs[i] = ov[sig.name_override if sig.name_override in ov else nm]
+                hit += 1
+        if hit != len(ov):
+            raise ValueError("init_override: %d of %d registers found" % (hit, len(ov)))
+    return spec_json, tuple(rs), len(st.regs)
 
 
 class NoHint:
